@@ -66,6 +66,26 @@ def main() -> int:
         eng.check_prop(args.prop, rep, args.tier, master, only)
     else:
         eng.check(rep, args.tier, master, only)
+    # regression corpus: minimised replay files of violations met earlier (genuine defects since repaired): they carry
+    # their own inputs, so they keep guarding whatever the generators produce later
+    corpus_dir = os.path.join(os.path.dirname(os.path.abspath(__file__)), "corpus", args.prop)
+    n_corpus = 0
+    if os.path.isdir(corpus_dir) and only is None:
+        for fn in sorted(os.listdir(corpus_dir)):
+            if not fn.endswith(".json"):
+                continue
+            with open(os.path.join(corpus_dir, fn), encoding="utf-8") as f:
+                payload = json.load(f)
+            try:
+                res = eng.replay(payload) if not hasattr(eng, "replay_prop") else eng.replay_prop(args.prop, payload)
+            except Exception as e:  # a corpus entry that cannot run is a harness problem, never silence
+                rep.harness_error(f"corpus {fn}: {type(e).__name__}: {e}")
+                continue
+            n_corpus += 1
+            if res.get("sig") is not None and res["sig"] == payload.get("signature"):
+                rep.violation(res["sig"], {k: v for k, v in payload.items() if k not in ("signature", "property", "what", "master_seed")},
+                              f"regression corpus {fn}: {payload.get('what', '')}")
+    rep.coverage["regression_corpus_replayed"] = n_corpus
     rep.coverage["eager_import"] = info
     if args.no_evidence:
         report.EVIDENCE_DIR = os.path.join("/tmp", "simkit-noevidence")
